@@ -560,10 +560,28 @@ func (c *Ctx) commentLoopShape(fd *ast.FuncDecl) (bool, string) {
 	if !ok || loop.Cond != nil {
 		return false, "expected an unconditional loop"
 	}
-	if len(loop.Body.List) != 2 {
+	stmts := loop.Body.List
+	if len(stmts) == 1 {
+		// `if r := l.next(); <test> {` or `switch r := l.next(); {`
+		switch s := stmts[0].(type) {
+		case *ast.IfStmt:
+			if s.Init != nil {
+				cp := *s
+				cp.Init = nil
+				stmts = []ast.Stmt{s.Init, &cp}
+			}
+		case *ast.SwitchStmt:
+			if s.Init != nil {
+				cp := *s
+				cp.Init = nil
+				stmts = []ast.Stmt{s.Init, &cp}
+			}
+		}
+	}
+	if len(stmts) != 2 {
 		return false, "loop body must be: r := l.next(); <exit test>"
 	}
-	as, ok := loop.Body.List[0].(*ast.AssignStmt)
+	as, ok := stmts[0].(*ast.AssignStmt)
 	if !ok || len(as.Rhs) != 1 {
 		return false, "loop must start with r := l.next()"
 	}
@@ -574,7 +592,7 @@ func (c *Ctx) commentLoopShape(fd *ast.FuncDecl) (bool, string) {
 	robj := c.objOf(as.Lhs[0])
 	var conds []ast.Expr
 	var body []ast.Stmt
-	switch s := loop.Body.List[1].(type) {
+	switch s := stmts[1].(type) {
 	case *ast.SwitchStmt:
 		if s.Tag != nil || len(s.Body.List) != 1 {
 			return false, "exit test must be a single-case tagless switch or an if"
@@ -600,23 +618,24 @@ func (c *Ctx) commentLoopShape(fd *ast.FuncDecl) (bool, string) {
 		return false, "exit test must be a switch or an if"
 	}
 	eol, eof := false, false
+	var atoms []condAtom
 	for _, e := range conds {
-		switch x := stripParens(e).(type) {
-		case *ast.CallExpr:
-			if c.calleeName(x) == "isEol" && len(x.Args) == 1 && c.isObj(x.Args[0], robj) {
-				eol = true
-			} else {
-				return false, "the comment ends on a condition other than isEol(r) / r == eof"
-			}
-		case *ast.BinaryExpr:
-			if k, isC := c.intConst(x.Y); isC && x.Op == token.EQL && k == -1 && c.isObj(x.X, robj) {
-				eof = true
-			} else {
-				return false, "the comment ends on a condition other than isEol(r) / r == eof"
-			}
-		default:
+		ds, pure := c.nnf(e, true, nil).disjuncts()
+		if !pure {
 			return false, "the comment ends on a condition other than isEol(r) / r == eof"
 		}
+		atoms = append(atoms, ds...)
+	}
+	for _, a := range atoms {
+		if call, ok := a.E.(*ast.CallExpr); ok && a.Pos && c.calleeName(call) == "isEol" && len(call.Args) == 1 && c.isObj(call.Args[0], robj) {
+			eol = true
+			continue
+		}
+		if b, ok := c.boundOf(a); ok && c.isObj(b.X, robj) && b.Lo != nil && b.Hi != nil && *b.Lo == -1 && *b.Hi == -1 {
+			eof = true
+			continue
+		}
+		return false, "the comment ends on a condition other than isEol(r) / r == eof"
 	}
 	if !eol || !eof {
 		return false, "the comment must end at isEol(r) and at eof"
@@ -862,7 +881,15 @@ func ruleLexerStops(c *Ctx, r *Report, rule string) {
 				seq = append(seq, cs.Name)
 			}
 		}
-		r.check(strings.Join(seq, ",") == "lexer.emitError,lexer.ignore,lexer.emit", rule, "fail", "emitError; ignore; emit(tFAIL); return nil", "fail() must send the error token, then tFAIL, found calls "+strings.Join(seq, ","), c.pos(fd.Pos()))
+		// emitError strictly before emit(tFAIL); ignore somewhere before the emit; nothing else
+		iErr, iIgn, iEmit := indexOf(seq, "lexer.emitError"), indexOf(seq, "lexer.ignore"), indexOf(seq, "lexer.emit")
+		for i, s := range seq {
+			if s == "lexer.emit" {
+				iEmit = i
+			}
+		}
+		okSeq := len(seq) == 3 && iErr < iEmit && iIgn < iEmit && iEmit == 2
+		r.check(okSeq, rule, "fail", "emitError and ignore, then emit(tFAIL); return nil", "fail() must send the error token (and drop the pending text) before tFAIL, found calls "+strings.Join(seq, ","), c.pos(fd.Pos()))
 	} else {
 		r.bad(rule, "fail", "function not found", "")
 	}
